@@ -28,8 +28,20 @@ def node_id(pk):
     return hashlib.sha256(b'\xc6\xb4\x13H' + pk).digest()
 
 
-def h_sigset(ctx, nv, signers, wmode='sym', twin=None, addr=False):
-    """signers: list of validator indices or 'u' (unknown signer)"""
+def spelled(hexid, how):
+    """the same node id written differently: bytes.fromhex() accepts upper case and blanks between the bytes"""
+    if how == 1:
+        return hexid.upper()
+    if how == 2:
+        return ' '.join(hexid[i:i + 2] for i in range(0, len(hexid), 2))
+    if how == 3:
+        return hexid[:32].upper() + hexid[32:]
+    return hexid
+
+
+def h_sigset(ctx, nv, signers, wmode='sym', twin=None, addr=False, spell=None):
+    """signers: list of validator indices or 'u' (unknown signer); spell: how each entry writes its node id (same id,
+    other spelling: a validator listed twice under two spellings is still one validator)"""
     if ctx.symbolic:
         weights = [ctx.zint(f'w{i}', 0, (1 << 64) - 1) for i in range(nv)]
     else:
@@ -48,7 +60,7 @@ def h_sigset(ctx, nv, signers, wmode='sym', twin=None, addr=False):
         sig = hashlib.sha512(b'sig' + pk).digest()               # one signature value per signer (a repeated entry is identical)
         if (pk, sig) not in valid:
             valid[(pk, sig)] = ctx.boolean(f'valid_{s}')
-        sigs.append(dict(node_id_short=node_id(pk).hex(), signature=sig))
+        sigs.append(dict(node_id_short=spelled(node_id(pk).hex(), spell[pos] if spell else 0), signature=sig))
     seen_msgs = []
 
     def verify_stub(public_key, signed_message, signature):
@@ -129,6 +141,16 @@ def instances(tier, seed):
                 if tier == 'thorough' and n == 5 and nv >= 3 and (zlib.crc32(repr(signers).encode()) % 4):
                     continue
                 yield 'h_sigset', dict(nv=nv, signers=list(signers))
+    # the same validator under different spellings of its node id (upper case, blanks, mixed): still one validator
+    for nv in range(1, 4):
+        alphabet = list(range(nv)) + ['u']
+        for n in range(1, 4 if tier == 'quick' else 5):
+            for signers in itertools.product(alphabet, repeat=n):
+                dup = len(set(signers)) < n
+                if not dup and zlib.crc32(repr(signers).encode()) % 3 != seed % 3:
+                    continue
+                for pat in ((1, 2, 3, 0), (0, 1, 0, 2)) if dup else ((1, 2, 3, 1),):
+                    yield 'h_sigset', dict(nv=nv, signers=list(signers), spell=list(pat[:n]) if n <= 4 else None)
     for signers in ([0, 1], [0, 1, 2], [2, 1, 0], [0], []):
         yield 'h_sigset', dict(nv=3, signers=signers, wmode='equal')
         yield 'h_sigset', dict(nv=3, signers=signers, addr=True)
@@ -142,6 +164,8 @@ BOUNDS = {
     'validators': '0..4 with distinct keys; weights: every value 0..2^64-1 each (integer theory)',
     'signature lists': 'every list of length 0..3 (quick) / 0..5 (thorough, length 5 sampled for >= 3 validators) over {each validator, unknown signer}',
     'validity': 'the truth value of every (key, message, signature) triple is a free symbolic boolean',
+    'spelling': 'signer lists of length 1..3 (thorough ..4) over 1..3 validators with the node ids written in lower case, upper case, with blanks '
+                'and half upper case - every list with a repeated signer in two spelling patterns',
 }
 OUTSIDE = ['Ed25519 itself (libsodium): only its use is checked; its contract is validated on fixed vectors', 'more than 4 validators']
 STUBS = ['verify_sign: uninterpreted predicate valid(pk, msg, sig) - functional only', 'hashlib.sha256 on symbolic input: injective uninterpreted function']
